@@ -168,8 +168,11 @@ CLAIMED.update({
             'one root = ccg@root) for tokens without an own id entry (original statement proved false without that guard); '
             'Japanese Jigg round trip (categories, shape, words); ccg2lambda\'s build_ccg_tree yields a tree isomorphic to the '
             'derivation with the rule labels/symbols; normalize_token yields _-prefixed names free of . , ( ) ! - and is idempotent. '
-            'Documents are modelled as element trees and diffed against the real lxml output; XPath oracles on the real output.',
-            NOTE + 'lxml parsing/serialisation trusted; ccg2lambda semantic composition needs NLTK (absent): not covered.',
+            'Documents are modelled as element trees and diffed against the real lxml output; XPath oracles on the real output. '
+            'The serialised text itself (lxml pretty printing, attribute escaping, ValueError on non-XML text, the jigg score '
+            'attribute) is modelled to the character (Print/XmlText.lean) and compared with the real text; an XML reader written '
+            'in Lean reads it back to the element trees (xml_parse_render, xml_text_decode, jigg_text_decode).',
+            NOTE + 'lxml parsing trusted (serialisation is modelled and compared); ccg2lambda semantic composition needs NLTK (absent): not covered.',
             'DESIGN.md §4 C15'),
     'C17': (T_PROOF,
             'Proved: elementwise specification of the dictionary filter (exactly the unlisted categories of dictionary words become '
@@ -204,7 +207,7 @@ CLAIMED.update({
             'One theorem per format family that the real bytes are tied to: auto/conll (C08 round trip, fragments), ptb/ja (C20), '
             'xml/jigg_xml (C15), auto_extended (independent Lean decoder reads every printed line back to words/shape/categories/'
             'labels/head flags/attributes), conll heads (= the head assignment implied by the head flags: one root, every other '
-            'word attached inside its parent span), json (shape/categories/labels/attributes), deriv (an independent Lean reader of '
+            'word attached inside its parent span), json (shape/categories/labels/attributes; the text of json.dumps(indent=4) is modelled to the character and a JSON reader written in Lean reads it back to sentence numbers, n-best order, scores and trees: json_roundtrip, json_text_decode; also run on the real output against json.loads), deriv (an independent Lean reader of '
             'the ASCII art recovers words, shape, categories and rule symbols of every printed derivation: deriv_decode; it is '
             'also run on the real output), the conll table (an independent Lean reader of the ten-column table: conll_decode, '
             'with the exact necessity of its hypotheses conll_decode_iff, conll_rows; also run on the real output), prolog (an independent Lean term reader recovers sentence numbers, rule functors, category '
@@ -214,11 +217,11 @@ CLAIMED.update({
             'are modelled to the character / element and diffed against the real to_string; eleven independent Python '
             'decoders compare each real output with the derivation in the format\'s own spelling.',
             TEXT_NOTE + ' html is modelled and decoded in Lean (html_decode), and so are deriv (deriv_decode) and prolog (prolog_en_decode / prolog_ja_decode); '
-            'float formatting of the header scores is a parameter.',
+            'the three float spellings of the scores ({:.8f}, {:.5e}, repr) are computed on the exact value k/64 and compared with CPython (repr claimed below 10^9 only).',
             'DESIGN.md §4 C07'),
     'C19': (T_PROOF,
             'Proved, at the level of the whole program (main_total_partial): whatever the input lines and scores, the model of the '
-            'program prints a text in every format it models, for both shipped grammars (the unrestricted statement is refuted by a '
+            'program prints a text in every format it models (all eleven executable ones; for xml / jigg_xml under the necessary hypothesis that the inputs are XML text: main_total_xml, main_xml_refuses), for both shipped grammars (the unrestricted statement is refuted by a '
             'category *value* no text denotes: an atom named NP\\NP; replayed on the real code). '
             'Proved: label closure of both grammars (C03/C04) is contained in the printers\' label tables, which are re-emitted '
             'from the imported modules on every run and checked equal to the model tables by kernel evaluation; every line / XML / '
